@@ -1,4 +1,4 @@
-import Sm9.Proofs.GroupBasic
+import Sm9.Proofs.RepIndep
 import Sm9.Proofs.Consts
 /-!
 # C09 — Only points of the curve and of the order-r subgroup pass validated construction
@@ -40,6 +40,36 @@ theorem affine_g2_new_ok (x y : Fq2) (a : AffineG2)
       · cases h
       · next hne => simpa using hne
   · cases h
+/-- **`AffineG2::new(x, y)` succeeds exactly when y² = x³ + 5u and r·(x, y) = O** in the group
+    of the twist -/
+theorem affine_g2_new_iff (x y : Fq2) :
+    (AffineG.new x y : Except GroupError AffineG2).toBool = true ↔
+      ∃ _ : y * y = x * x * x + b2, r • G2.toAff { x := x, y := y, z := 1 } = 0 := by
+  unfold AffineG.new
+  have hc : GroupParams.check_order Fq2 = true := rfl
+  simp only [hc, if_true]
+  constructor
+  · intro h
+    split at h
+    · next hh =>
+      rw [Fq2.beq_iff] at hh
+      have heq : y * y = x * x * x + b2 := by
+        rw [← Fq2.squared_eq_mul, ← Fq2.squared_eq_mul]; exact hh
+      refine ⟨heq, ?_⟩
+      split at h
+      · cases h
+      · next hne =>
+        have : G.eq ((({ x := x, y := y, z := 1 } : G2).mul (-(1 : Fr))).add { x := x, y := y, z := 1 }) G.zero = true := by
+          simpa using hne
+        exact (G2.subgroup_test_iff x y heq).1 this
+    · cases h
+  · rintro ⟨heq, hr⟩
+    have hb : FieldElement.beq (FieldElement.squared y) (FieldElement.squared x * x + GroupParams.coeff_b) = true := by
+      rw [Fq2.beq_iff]
+      show y.squared = x.squared * x + b2
+      rw [Fq2.squared_eq_mul, Fq2.squared_eq_mul]; exact heq
+    have ht := (G2.subgroup_test_iff x y heq).2 hr
+    simp [hb, ht, Except.toBool]
 /-- the G2 decoders reach `Ok` only through the validated constructor -/
 theorem g2_from_slice_funnel (bs : List UInt8) (p : G2) (h : Api.g2FromSlice bs = .ok p) :
     ∃ x y a, (AffineG.new x y : Except GroupError AffineG2) = .ok a ∧ p = a.to_jacobian := by
